@@ -250,6 +250,10 @@ def queries(s: State) -> str:
         ('eff', lambda: p_list(lambda i: guarded(lambda: s.get_effective_stack(i), p_int), list(s.player_indices))),
         ('in_play', lambda: p_cards(s.cards_in_play)),
         ('out_play', lambda: p_cards(s.cards_not_in_play)),
+        ('censored', lambda: p_list(lambda i: p_cards(s.get_censored_hole_cards(i)), list(s.player_indices))),
+        ('down', lambda: p_list(lambda i: p_cards(s.get_down_cards(i)), list(s.player_indices))),
+        ('up', lambda: p_list(lambda i: p_cards(s.get_up_cards(i)), list(s.player_indices))),
+        ('pot_amounts', lambda: p_list(p_int, list(s.pot_amounts))),
     ]
     out = []
     for k, f in items:
